@@ -18,13 +18,13 @@ Definition abs (z : rsregs) : pyregs :=
   {| y_ba := dflt (z_ba z) 0 mod p16; y_i := dflt (z_i z) 0 mod p16;
      y_x := dflt (z_x z) 0 mod p20; y_y := dflt (z_y z) 0 mod p20; y_u := dflt (z_u z) 0 mod p20;
      y_s := dflt (z_s z) 0 mod p20; y_pc := dflt (z_pc z) 0 mod p20;
-     y_f := rs_get z rF;
+     y_f := rs_get z gF;
      y_t := map (fun o => dflt o 0 mod p24) (z_t z) |}.
 
 Lemma abs_init : abs rs_init = py_init.
 Proof. reflexivity. Qed.
 
-Lemma rs_get_F_lt : forall z, rs_get z rF < p8.
+Lemma rs_get_F_lt : forall z, rs_get z gF < p8.
 Proof. intros z. cbn. unp. destruct (z_fc z), (z_fz z); cbn; lia. Qed.
 
 Lemma low_bit : forall q a b, a < 2 -> (q * 4 + a + b * 2) mod 2 = a.
@@ -39,7 +39,7 @@ Proof. intros. apply N.mod_lt. lia. Qed.
 Lemma nth_map_dflt : forall (t : list (option N)) k,
   nth k (map (fun o => dflt o 0 mod p24) t) 0 = dflt (nth k t None) 0 mod p24.
 Proof.
-  induction t as [|h tl rIH]; intros [|j]; cbn [map nth]; try reflexivity; try apply rIH.
+  induction t as [|h tl gIH]; intros [|j]; cbn [map nth]; try reflexivity; try apply gIH.
 Qed.
 
 Theorem abs_get : forall z r, py_get (abs z) r = rs_get z r.
@@ -118,8 +118,8 @@ Qed.
 Lemma abs_apply_temps : forall l z k,
   abs (rs_apply_temps z k l) = py_apply_temps (abs z) k l.
 Proof.
-  induction l as [|v t rIH]; intros z k; cbn [rs_apply_temps py_apply_temps]; [reflexivity|].
-  rewrite rIH, abs_set. f_equal.
+  induction l as [|v t gIH]; intros z k; cbn [rs_apply_temps py_apply_temps]; [reflexivity|].
+  rewrite gIH, abs_set. f_equal.
   apply py_set_modw; [right; left; reflexivity|left; cbn; unp; lia].
 Qed.
 
@@ -149,10 +149,10 @@ Qed.
 Lemma py_apply_length : forall sn s, length (y_t s) = NTEMP -> length (y_t (py_apply sn s)) = NTEMP.
 Proof.
   intros sn s Hl. unfold py_apply.
-  set (s8 := py_set _ rF _).
+  set (s8 := py_set _ gF _).
   assert (H8 : length (y_t s8) = NTEMP) by (subst s8; destruct s; cbn in *; exact Hl).
-  clearbody s8. revert s8 H8. generalize 0%nat. induction (sn_t sn) as [|v t rIH]; intros k s8 H8; cbn; [exact H8|].
-  apply rIH. destruct s8; cbn in *. destruct (Nat.ltb k NTEMP); [rewrite upd_length|]; exact H8.
+  clearbody s8. revert s8 H8. generalize 0%nat. induction (sn_t sn) as [|v t gIH]; intros k s8 H8; cbn; [exact H8|].
+  apply gIH. destruct s8; cbn in *. destruct (Nat.ltb k NTEMP); [rewrite upd_length|]; exact H8.
 Qed.
 
 Lemma rs_apply_length : forall sn z, length (z_t z) = NTEMP -> length (z_t (rs_apply sn z)) = NTEMP.
@@ -165,19 +165,19 @@ Qed.
 
 Theorem rs_refines_py : forall ops z, length (z_t z) = NTEMP -> rs_run z ops = py_run (abs z) ops.
 Proof.
-  induction ops as [|o ops rIH]; intros z Hl; [reflexivity|].
+  induction ops as [|o ops gIH]; intros z Hl; [reflexivity|].
   destruct o as [r v|r| |]; cbn [rs_run py_run].
-  - rewrite <- abs_set, abs_get. f_equal. apply rIH. rewrite rs_set_length. exact Hl.
-  - rewrite abs_get. f_equal. apply rIH. exact Hl.
+  - rewrite <- abs_set, abs_get. f_equal. apply gIH. rewrite rs_set_length. exact Hl.
+  - rewrite abs_get. f_equal. apply gIH. exact Hl.
   - rewrite (rs_collect_eq z Hl), <- abs_init, <- abs_apply.
     f_equal.
     + unfold rs_obs_all, py_obs_all. apply map_ext. intros r. symmetry. apply abs_get.
-    + apply rIH. apply rs_apply_length. reflexivity.
+    + apply gIH. apply rs_apply_length. reflexivity.
   - rewrite (rs_collect_eq z Hl).
     destruct (unpack (pack (py_capture (abs z))) (sn_t (py_capture (abs z)))) as [sn'|]; [|reflexivity].
     rewrite <- abs_init, <- abs_apply. f_equal.
     + unfold rs_obs_all, py_obs_all. apply map_ext. intros r. symmetry. apply abs_get.
-    + apply rIH. apply rs_apply_length. reflexivity.
+    + apply gIH. apply rs_apply_length. reflexivity.
 Qed.
 
 Theorem py_rs_agree : forall ops, rs_run rs_init ops = py_run py_init ops.
@@ -190,5 +190,5 @@ Fixpoint py_state_after (s : pyregs) (ws : list (reg * N)) : pyregs :=
 Theorem wf_reachable : forall ws, wf (py_state_after py_init ws).
 Proof.
   intros ws. generalize wf_init. generalize py_init.
-  induction ws as [|[r v] t rIH]; intros s H; cbn; [exact H|]. apply rIH. apply wf_set. exact H.
+  induction ws as [|[r v] t gIH]; intros s H; cbn; [exact H|]. apply gIH. apply wf_set. exact H.
 Qed.
